@@ -104,7 +104,7 @@ def tfunLayout (cfg : Cfg) (es : InEdges) (comps : List (List (Int × G))) (real
     -- phase 3: long edges are broken exactly as the model says; the heuristic only permutes positions
     match stageOf c 2, stageOf c 3 with
     | some a, some b =>
-      if a.nodes.size > 1 && a.layers.size > 1 then
+      if cfg.p3 == 0 && a.nodes.size > 1 && a.layers.size > 1 then
         out := out ++ [cmpG "T:break" ((breakLongEdges a).map forgetOrder) (forgetOrder b)]
         out := out ++ [("K:ordered", orderedOK b, "layer lists are not ordered by LayerPos 0..k-1")]
         -- the whole ordering phase, exactly (bounded size: the model recounts crossings for every transposition)
@@ -164,7 +164,7 @@ def tfunLayout (cfg : Cfg) (es : InEdges) (comps : List (List (Int × G))) (real
     | some a, some b => out := out ++ [cmpG "T:post" (pure (postProcess a (loopsOf.getD ci []))) b]
     | _, _ => pure ()
   -- the composed model, from the raw input to the public result (small inputs, configurations with exact models)
-  if heavy && cfg.p1 ≤ 1 && cfg.p4 ≤ 5 && cfg.p5 != 3 && es.length ≤ 16 then
+  if heavy && cfg.p1 ≤ 1 && cfg.p3 == 0 && cfg.p4 ≤ 5 && cfg.p5 != 3 && es.length ≤ 16 then
     match layoutModelP (fun g => (orderWMedianP 24 g).map (·.1)) cfg es with
     | .error e => out := out ++ [("T:pipeline", false, s!"model error {e}")]
     | .ok m => out := out ++ [("T:pipeline", m == real, firstDiffOut m real)]
